@@ -26,6 +26,10 @@ def wire (scr : Option Screen) : Msg → List UInt8
   | .secResult ok => be32 (if ok then Gen.C05.rfbVncAuthOK else Gen.C05.rfbVncAuthFailed)
   | .reason s => be32 s.length ++ s
   | .serverInit => match scr with | some s => s.serverInit | none => []
+  | .tightTunnelCaps => be32 0
+  | .tightAuthCaps n => be32 n ++ (if n = 0 then [] else Gen.C05.tightCapAuthVNC)
+  | .tightInteractionCaps => []          -- content not observed (only its length: `caps=`)
+  | .appMarker => "EXT!".toUTF8.toList
 
 /-- With a failing back-end the fixed rfbEncryptBytes yields random bytes (modelled as a value no
 16-byte response equals), the unfixed one leaves the challenge in place; rfbDecryptPasswdFromFile
@@ -34,11 +38,13 @@ def envOf (fixed cryptoFail : Bool) : Env :=
   if cryptoFail then
     { enc := if fixed then (fun _ _ => []) else (fun _ c => c)
       decFile := fun _ => none
-      parseVer := parseVersion }
+      parseVer := parseVersion
+      app := fun _ c => appClose c }
   else
     { enc := if fixed then Des.rfbEncryptBytes else Des.rfbEncryptBytesUnfixed
       decFile := Des.decryptPasswdFile Gen.C05.fixedkey
-      parseVer := parseVersion }
+      parseVer := parseVersion
+      app := fun _ c => appClose c }
 
 def stName : St → String
   | .ver => "ver" | .sec => "sec" | .auth => "auth" | .init => "init" | .initShared => "initsh"
@@ -61,7 +67,8 @@ def obs (s : DState) (cid : Nat) : DState × String :=
     let k := reportedOf s cid
     let fresh := (c.sent.take (c.sent.length - k)).reverse
     let bytes := fresh.flatMap (wire s.screens[c.screen]?)
-    let line := s!"c{cid} {stName c.st} {if c.isOpen then "open" else "closed"} vo={if c.viewOnly then 1 else 0} out={hex bytes}"
+    let caps := if fresh.contains .tightInteractionCaps then s!" caps={Gen.C05.tightInteractionCapsLen}" else ""
+    let line := s!"c{cid} {stName c.st} {if c.isOpen then "open" else "closed"} vo={if c.viewOnly then 1 else 0} out={hex bytes}{caps}"
     ({ s with reported := (cid, c.sent.length) :: s.reported.filter (fun p => p.1 != cid) }, line)
 
 def ev (s : DState) (e : Ev) : DState :=
@@ -88,6 +95,25 @@ def dstep (s : DState) (toks : List String) : DState × List String :=
     if m = "fixed" then ({ s with fixed := true }, ["ok"])
     else if m = "unfixed" then ({ s with fixed := false }, ["ok"])
     else (s, ["bad-op"])
+  | ["tight", b] =>
+    match b? b with
+    | some on =>
+      if on == s.proc.handlers.contains .tight then (s, ["bad-op"])
+      else (ev s (if on then .register .tight else .unregister .tight), ["ok"])
+    | none => (s, ["bad-op"])
+  | ["ext", t] =>
+    match t.toNat? with
+    | some t =>
+      if t > 255 || s.proc.handlers.contains (.app t) ||
+         (s.proc.handlers.filter (fun h => h != .tight)).length ≥ 8 then (s, ["bad-op"])
+      else (ev s (.register (.app t)), ["ok"])
+    | none => (s, ["bad-op"])
+  | ["unext", t] =>
+    match t.toNat? with
+    | some t =>
+      if !s.proc.handlers.contains (.app t) then (s, ["bad-op"])
+      else (ev s (.unregister (.app t)), ["ok"])
+    | none => (s, ["bad-op"])
   | ["cryptofail", b] =>
     match b? b with
     | some b => ({ s with cryptoFail := b }, ["ok"])
@@ -145,7 +171,7 @@ def dstep (s : DState) (toks : List String) : DState × List String :=
       | some key, some data =>
         if key.length ≠ 8 || data.length % 8 ≠ 0 then (s, ["bad-op"]) else
         if op = "refdes" then (s, [hex (Des.ecb (Des.encryptBlock key) data)])
-        else if !s.fixed && Des.gcryRefuses (key.map Des.reverseByte) then (s, [s!"0 {hex data}"])
+        else if s.cryptoFail || (!s.fixed && Des.gcryRefuses (key.map Des.reverseByte)) then (s, [s!"0 {hex data}"])
         else if op = "des" then (s, [s!"1 {hex (Des.encryptRfbDes key data)}"])
         else (s, [s!"1 {hex (Des.decryptRfbDes key data)}"])
       | _, _ => (s, ["bad-op"])
@@ -180,12 +206,17 @@ def dstep (s : DState) (toks : List String) : DState × List String :=
       | some c => s!"{cid}:{stName c.st}:{if c.isOpen then "open" else "closed"}:{if c.viewOnly then 1 else 0}"))])
   | ["store", pw] =>
     match unhex? pw with
-    | some pw => if pw.contains 0 then (s, ["bad-op"]) else (s, [hex (Des.storePasswd Gen.C05.fixedkey pw)])
+    | some pw =>
+      if pw.contains 0 then (s, ["bad-op"])
+      else if s.cryptoFail then
+        -- fixed: fails before the file is touched; original: the padded plaintext is written
+        (s, [if s.fixed then "store-failed nofile" else hex (Des.padKey pw)])
+      else (s, [hex (Des.storePasswd Gen.C05.fixedkey pw)])
     | none => (s, ["bad-op"])
   | ["load", f] =>
     match unhex? f with
     | some f =>
-      match Des.decryptPasswdFile Gen.C05.fixedkey f with
+      match (if s.cryptoFail then none else Des.decryptPasswdFile Gen.C05.fixedkey f) with
       | some pw => (s, [hex pw])
       | none => (s, ["null"])
     | none => (s, ["bad-op"])
